@@ -37,6 +37,13 @@ fn work(x: u64) -> u64 {
     x * 10
 }
 
+// one straggler: item STRAGGLER takes 0.7 s (a cold disk, one huge shard), everything else is instantaneous
+static STRAGGLER: std::sync::atomic::AtomicU64 = std::sync::atomic::AtomicU64::new(u64::MAX);
+fn straggler(x: u64) -> u64 {
+    if x == STRAGGLER.load(std::sync::atomic::Ordering::SeqCst) { std::thread::sleep(std::time::Duration::from_millis(700)); }
+    x * 10
+}
+
 fn threads_now() -> usize {
     std::fs::read_dir("/proc/self/task").map(|d| d.count()).unwrap_or(0)
 }
@@ -107,6 +114,15 @@ fn pmap_cases() {
         }
     }
     BOOM.store(u64::MAX, std::sync::atomic::Ordering::SeqCst);
+    // one item far slower than the others, at the start, in the middle and in the last round: the output is still in input order and complete
+    for (n, t, j) in [(8u64, 3usize, 0u64), (8, 3, 4), (9, 3, 7), (6, 2, 3), (10, 4, 9), (7, 3, 6)] {
+        STRAGGLER.store(j, std::sync::atomic::Ordering::SeqCst);
+        let _ = verif::take();
+        let out: Vec<u64> = parallel_map(straggler, 0..n, t).collect();
+        trace_line("full", n, t, 0);
+        println!("PMAP {{\"kind\":\"full\",\"n\":{},\"threads\":{},\"out\":{:?},\"straggler\":{}}}", n, t, out, j);
+    }
+    STRAGGLER.store(u64::MAX, std::sync::atomic::Ordering::SeqCst);
     // one long pause of the consumer (an evaluation / checkpoint between two training steps): PMAP_LONG_STALL_MS
     {
         let ms: u64 = std::env::var("PMAP_LONG_STALL_MS").ok().and_then(|v| v.parse().ok()).unwrap_or(10500);
